@@ -9,13 +9,13 @@ FAIL=0
 for PATCH in "$VERIF"/benign/B*.patch; do
   NAME="$(basename "$PATCH" .patch)"
   [ -n "$FILTER" ] && [[ "$NAME" != *$FILTER* ]] && continue
-  WT="/tmp/bn-$NAME"
+  WT="/tmp/bn-$NAME-$$"
   git -C /repo worktree remove --force "$WT" >/dev/null 2>&1
   git -C /repo worktree add -f "$WT" HEAD >/dev/null 2>&1 || { echo "worktree failed"; exit 2; }
   if ! git -C "$WT" apply "$PATCH"; then echo "[$NAME] patch does not apply"; git -C /repo worktree remove --force "$WT"; FAIL=1; continue; fi
-  BIN="$("$VERIF/build.sh" "$WT" 2>/tmp/bn-$NAME.build.log | tail -1)"
-  if [ ! -x "$BIN" ]; then echo "[$NAME] build failed"; tail -20 /tmp/bn-$NAME.build.log; FAIL=1; else
-    VR="/tmp/vr-bn-$NAME"; rm -rf "$VR"; mkdir -p "$VR"; cp "$VERIF/known_findings.json" "$VR/"; mkdir -p "$VR/findings"; cp "$VERIF"/findings/* "$VR/findings/" 2>/dev/null
+  BIN="$("$VERIF/build.sh" "$WT" 2>/tmp/bn-$NAME-$$.build.log | tail -1)"
+  if [ ! -x "$BIN" ]; then echo "[$NAME] build failed"; tail -20 /tmp/bn-$NAME-$$.build.log; FAIL=1; else
+    VR="/tmp/vr-bn-$NAME-$$"; rm -rf "$VR"; mkdir -p "$VR"; cp "$VERIF/known_findings.json" "$VR/"; mkdir -p "$VR/findings"; cp "$VERIF"/findings/* "$VR/findings/" 2>/dev/null
     BAD=""
     for P in $PROPS; do
       OUT="$("$BIN" check --prop "$P" --tier quick --scale "$SCALE" --workers "$WORKERS" --minimise-secs 10 --verif-root "$VR" 2>/dev/null)"; RC=$?
